@@ -434,6 +434,10 @@ func (fv *FnV) evalExternal(st *State, call *ast.CallExpr, o *types.Func) []Val 
 	switch full {
 	case "math.Abs":
 		return []Val{{fmt.Sprintf("(ite (>= %s 0.0) %s (- %s))", a(0), a(0), a(0)), realT}}
+	case "math.Min":
+		return []Val{{fmt.Sprintf("(ite (<= %s %s) %s %s)", a(0), a(1), a(0), a(1)), realT}}
+	case "math.Max":
+		return []Val{{fmt.Sprintf("(ite (>= %s %s) %s %s)", a(0), a(1), a(0), a(1)), realT}}
 	case "math.Floor", "math.Ceil", "math.Trunc", "math.Round":
 		x := fv.name("fx", a(0), "Real")
 		it := fv.roundInt(x, strings.ToLower(name))
